@@ -499,8 +499,8 @@ theorem specFCmp_finite (B : Nat) (a b : FRepr) (ha : a.isInfinite = false) (hb 
 theorem pow_cast (B k : Nat) : ((B ^ k : Nat) : Int) = (B : Int) ^ k := by push_cast; rfl
 
 theorem dominate_pos (B d k : Nat) (s1 s2 : Int) (hB : 2 ≤ B) (h1 : 0 < s1) (h2 : s2.natAbs < B ^ d)
-    (hk : d < k) : s2 < s1 * (B : Int) ^ k := by
-  have hlt : B ^ d < B ^ k := Nat.pow_lt_pow_right (by omega) hk
+    (hk : d ≤ k) : s2 < s1 * (B : Int) ^ k := by
+  have hlt : B ^ d ≤ B ^ k := Nat.pow_le_pow_right (by omega) hk
   have hpos : 0 < B ^ k := Nat.pow_pos (by omega)
   rw [← pow_cast]
   have : ((B ^ k : Nat) : Int) ≤ s1 * ((B ^ k : Nat) : Int) := by
@@ -509,40 +509,40 @@ theorem dominate_pos (B d k : Nat) (s1 s2 : Int) (hB : 2 ≤ B) (h1 : 0 < s1) (h
   omega
 
 theorem dominate_neg (B d k : Nat) (s1 s2 : Int) (hB : 2 ≤ B) (h1 : s1 < 0) (h2 : s2.natAbs < B ^ d)
-    (hk : d < k) : s1 * (B : Int) ^ k < s2 := by
+    (hk : d ≤ k) : s1 * (B : Int) ^ k < s2 := by
   have := dominate_pos B d k (-s1) (-s2) hB (by omega) (by simpa using h2) hk
   have e : -s1 * (B : Int) ^ k = -(s1 * (B : Int) ^ k) := by ring
   omega
 
 theorem fcmp3_dominate_left (B d : Nat) (hB : 2 ≤ B) (s1 e1 s2 e2 : Int) (hs1 : s1 ≠ 0)
-    (hsame : (s1 < 0) ↔ (s2 < 0)) (h2 : s2.natAbs < B ^ d) (he : e1 > e2 + d) :
+    (hsame : (s1 < 0) ↔ (s2 < 0)) (h2 : s2.natAbs < B ^ (d + 1)) (he : e1 > e2 + d) :
     cmpCase6 B s1 e1 s2 e2 = mulOrd (decide (s1 < 0)) .gt := by
   unfold cmpCase6
   have h1 : ¬ e1 = e2 := by omega
   have h3 : e1 > e2 := by omega
   simp only [h1, h3, if_false, if_true]
-  have hk : d < (e1 - e2).toNat := by omega
+  have hk : d + 1 ≤ (e1 - e2).toNat := by omega
   by_cases hn : s1 < 0
   · simp only [hn, decide_true, mulOrd, if_true]
-    exact int_cmp_of_lt (dominate_neg B d _ s1 s2 hB hn h2 hk)
+    exact int_cmp_of_lt (dominate_neg B (d + 1) _ s1 s2 hB hn h2 hk)
   · simp only [hn, decide_false, mulOrd, Bool.false_eq_true, if_false]
-    exact int_cmp_of_gt (dominate_pos B d _ s1 s2 hB (by omega) h2 hk)
+    exact int_cmp_of_gt (dominate_pos B (d + 1) _ s1 s2 hB (by omega) h2 hk)
 
 theorem fcmp3_dominate_right (B d : Nat) (hB : 2 ≤ B) (s1 e1 s2 e2 : Int) (hs2 : s2 ≠ 0)
-    (hsame : (s1 < 0) ↔ (s2 < 0)) (h1 : s1.natAbs < B ^ d) (he : e2 > e1 + d) :
+    (hsame : (s1 < 0) ↔ (s2 < 0)) (h1 : s1.natAbs < B ^ (d + 1)) (he : e2 > e1 + d) :
     cmpCase6 B s1 e1 s2 e2 = mulOrd (decide (s1 < 0)) .lt := by
   unfold cmpCase6
   have h1' : ¬ e1 = e2 := by omega
   have h3 : ¬ e1 > e2 := by omega
   simp only [h1', h3, if_false]
-  have hk : d < (e2 - e1).toNat := by omega
+  have hk : d + 1 ≤ (e2 - e1).toNat := by omega
   by_cases hn : s1 < 0
   · have hn2 : s2 < 0 := hsame.mp hn
     simp only [hn, decide_true, mulOrd, if_true]
-    exact int_cmp_of_gt (dominate_neg B d _ s2 s1 hB hn2 h1 hk)
+    exact int_cmp_of_gt (dominate_neg B (d + 1) _ s2 s1 hB hn2 h1 hk)
   · have hn2 : ¬ s2 < 0 := fun h => hn (hsame.mpr h)
     simp only [hn, decide_false, mulOrd, Bool.false_eq_true, if_false]
-    exact int_cmp_of_lt (dominate_pos B d _ s2 s1 hB (by omega) h1 hk)
+    exact int_cmp_of_lt (dominate_pos B (d + 1) _ s2 s1 hB (by omega) h1 hk)
 
 theorem int_pow_pos' (B k : Nat) (hB : 2 ≤ B) : (0 : Int) < (B : Int) ^ k := by
   rw [← pow_cast]; exact_mod_cast Nat.pow_pos (by omega)
@@ -593,21 +593,24 @@ theorem fcmp3_zero_right (B : Nat) (hB : 2 ≤ B) (s1 e1 e2 : Int) (h1 : 0 < s1)
     · exact int_cmp_of_gt (Int.mul_pos h1 hp)
     · rw [Int.zero_mul]; exact int_cmp_of_gt h1
 
+theorem pow_succ_bound (B : Nat) (hB : 2 ≤ B) (n d : Nat) (h : n < B ^ d) : n < B ^ (d + 1) :=
+  Nat.lt_of_lt_of_le h (Nat.pow_le_pow_right (by omega) (by omega))
+
 theorem cmpCase56_spec (B : Nat) (hB : 2 ≤ B) (digitsUb : Int → Nat)
     (hub : ∀ s : Int, s.natAbs < B ^ digitsUb s) (s1 e1 s2 e2 : Int) (hs1 : s1 ≠ 0) (hs2 : s2 ≠ 0)
     (hsame : (s1 < 0) ↔ (s2 < 0)) :
     cmpCase56 B digitsUb (decide (s1 < 0)) s1 e1 s2 e2 = cmpCase6 B s1 e1 s2 e2 := by
   unfold cmpCase56
   split
-  · rename_i h; exact (fcmp3_dominate_left B _ hB s1 e1 s2 e2 hs1 hsame (hub s2) h).symm
+  · rename_i h; exact (fcmp3_dominate_left B _ hB s1 e1 s2 e2 hs1 hsame (pow_succ_bound B hB _ _ (hub s2)) h).symm
   · split
-    · rename_i h; exact (fcmp3_dominate_right B _ hB s1 e1 s2 e2 hs2 hsame (hub s1) h).symm
+    · rename_i h; exact (fcmp3_dominate_right B _ hB s1 e1 s2 e2 hs2 hsame (pow_succ_bound B hB _ _ (hub s1)) h).symm
     · rfl
 
 theorem cmpCase4_spec (B : Nat) (hB : 2 ≤ B) (s1 e1 s2 e2 : Int) (hs1 : s1 ≠ 0) (hs2 : s2 ≠ 0)
     (hsame : (s1 < 0) ↔ (s2 < 0)) (prec : Option (Nat × Nat))
     (hprec : ∀ lp rp, prec = some (lp, rp) →
-      (lp ≠ 0 → s1.natAbs < B ^ lp) ∧ (rp ≠ 0 → s2.natAbs < B ^ rp))
+      (lp ≠ 0 → s1.natAbs < B ^ (lp + 1)) ∧ (rp ≠ 0 → s2.natAbs < B ^ (rp + 1)))
     (o : Ordering) (h : cmpCase4 (decide (s1 < 0)) e1 e2 prec = some o) :
     o = cmpCase6 B s1 e1 s2 e2 := by
   cases prec with
@@ -633,7 +636,7 @@ theorem cmp_tail_spec (B : Nat) (hB : 2 ≤ B) (digitsUb : Int → Nat)
     (hub : ∀ s : Int, s.natAbs < B ^ digitsUb s) (s1 e1 s2 e2 : Int) (hs1 : s1 ≠ 0) (hs2 : s2 ≠ 0)
     (hsame : (s1 < 0) ↔ (s2 < 0)) (prec : Option (Nat × Nat))
     (hprec : ∀ lp rp, prec = some (lp, rp) →
-      (lp ≠ 0 → s1.natAbs < B ^ lp) ∧ (rp ≠ 0 → s2.natAbs < B ^ rp)) :
+      (lp ≠ 0 → s1.natAbs < B ^ (lp + 1)) ∧ (rp ≠ 0 → s2.natAbs < B ^ (rp + 1))) :
     (match cmpCase4 (decide (s1 < 0)) e1 e2 prec with
       | some o => o
       | none => cmpCase56 B digitsUb (decide (s1 < 0)) s1 e1 s2 e2) = cmpCase6 B s1 e1 s2 e2 := by
@@ -642,13 +645,15 @@ theorem cmp_tail_spec (B : Nat) (hB : 2 ≤ B) (digitsUb : Int → Nat)
   · exact cmpCase56_spec B hB digitsUb hub s1 e1 s2 e2 hs1 hs2 hsame
 
 /-- `repr_cmp_same_base` is the order of the values `signif · B^exp` (infinities at the ends),
-    PROVIDED each operand's significand has at most `precision` digits whenever a non-zero precision
-    is supplied (the invariant of `FBig`), and for ANY digit estimator that is an upper bound. -/
+    PROVIDED each operand's significand has at most `precision + 1` digits whenever a non-zero
+    precision is supplied (what the arithmetic guarantees: C03 "no result carries more than p+1
+    significant digits"; the strict `>` of the shortcut leaves exactly this one digit of slack), and
+    for ANY digit estimator that is an upper bound. -/
 theorem reprCmpSameBase_spec (B : Nat) (hB : 2 ≤ B) (digitsUb : Int → Nat)
     (hub : ∀ s : Int, s.natAbs < B ^ digitsUb s)
     (lhs rhs : FRepr) (prec : Option (Nat × Nat))
     (hprec : ∀ lp rp, prec = some (lp, rp) →
-      (lp ≠ 0 → lhs.signif.natAbs < B ^ lp) ∧ (rp ≠ 0 → rhs.signif.natAbs < B ^ rp)) :
+      (lp ≠ 0 → lhs.signif.natAbs < B ^ (lp + 1)) ∧ (rp ≠ 0 → rhs.signif.natAbs < B ^ (rp + 1))) :
     reprCmpSameBase B digitsUb lhs rhs prec = specFCmp B lhs rhs := by
   unfold reprCmpSameBase
   by_cases hli : lhs.isInfinite = true
